@@ -27,7 +27,7 @@ def run(chk):
     thorough = chk.tier == "thorough"
     c01.mc(chk, ["Agent_thorough.cfg", "Agent_quick2.cfg"] if thorough else ["Agent_quick.cfg"])
     rnd = random.Random(chk.seed)
-    scripts = A.stories() + order_scripts(rnd, 700 if thorough else 26)
+    scripts = [s for s in A.stories() if not s.get("datadog")] + order_scripts(rnd, 700 if thorough else 26)
     n, ev, rej, consts = A.run_scripts(chk, scripts, FLAGS, "c05")
     A.handle(chk, rej, FLAGS, "c05", consts)
     # component level: the buffer hands chunks on in arrival order (HybridBuffer Fifo / hand-back rules) and the client never
